@@ -1023,6 +1023,7 @@ _run_without_glue = run
 def run(res, tier, seed):
     _run_without_glue(res, tier, seed)
     gluecmp.check(res, GLUE_ROUTINES, tier, seed)
+    res.rule += " | self lookup (C06_self_lookup): on every public case, every other source timestamp as query, 3 source classes x 3 modes, must return the source row at that timestamp"
     res.rule += (" | glue: for each of %s the translated Glue.Lang term (coq/Gen/Glue.v) is evaluated by the extracted Glue/Interp.v and compared with the "
                  "real pynapple routine on canonical sets of a dyadic lattice (incl. negative times, empty, touching, duplicates, unsorted/improper "
                  "constructor input, thresholds equal to a length or gap); exceptions must match the model's error kind" % ", ".join(GLUE_ROUTINES))
